@@ -883,6 +883,11 @@ func TestVerifC01(t *testing.T) {
 		step("b.a.test.", "prelude-allow-list-disabled-blocks")
 		ps.setList(t, 1, true)
 		step("b.a.test.", "prelude-allow-list-enabled-passes")
+		// round 8: the global filtering switch through filtering/config
+		ps.setFiltering(t, out, false)
+		step("a.test.", "prelude-global-filtering-off-forwarded")
+		ps.setFiltering(t, out, true)
+		step("a.test.", "prelude-global-filtering-on-again-blocked")
 		out.Emit(ps.historyCase())
 	}
 	nL := out.Scale(30, 900)
@@ -1114,7 +1119,8 @@ func TestVerifC01(t *testing.T) {
 		plProtPrelude(t, out, mk, func() *plQuery {
 			k++
 			name := []string{"b.a.test.", "a.test.", "xa.test."}[k%3]
-			return &plQuery{Name: name, QType: dns.TypeA, Addr: cli, Answer: c01Answer(rnd.Fork(10), name, dns.TypeA)}
+			qt := []uint16{dns.TypeA, dns.TypeAAAA}[k%2]
+			return &plQuery{Name: name, QType: qt, Addr: cli, Answer: c01Answer(rnd.Fork(10), name, qt)}
 		}, emit)
 	}
 	nProt := out.Scale(20, 700)
